@@ -133,7 +133,6 @@ func verifH_C16_operation_refs() {
 		a, b = "a/b_c.json#/components/schemas/X", "a_b/c.json#/components/schemas/X"
 	}
 	// known finding: the default name resolver maps these pairs of distinct targets to one name
-	verifKnown("C16-default-names-collide", shape == 3 || shape == 4)
 	files := verifFiles()
 	files["/r/m.v1.json"] = `{"components":{"schemas":{"X":{"type":"string","minLength":1}}}}`
 	files["/r/m.v2.json"] = `{"components":{"schemas":{"X":{"type":"string","minLength":2}}}}`
@@ -164,6 +163,9 @@ func verifH_C16_operation_refs() {
 	}
 	props := doc.Paths.Value("/a").Post.Responses.Value("201").Value.Content["application/json"].Schema.Value.Properties
 	va, vb := props["a"].Value, props["b"].Value
+	// known finding: the default name resolver maps these pairs of distinct targets to one name (it shows
+	// in what is internalised and compared from here on, not in the loading above)
+	verifKnown("C16-default-names-collide", shape == 3 || shape == 4)
 	verifC16Check(doc, "operation refs")
 	ra, rb := props["a"].Ref, props["b"].Ref
 	verifAssert(props["a"].Value == va && props["b"].Value == vb, "C16 operation refs: references resolve to the same content as before")
